@@ -283,6 +283,13 @@ GENERATED_BASES.update({
     "gen/positions-v3": "- snowfakery_version: 3\n- var: tv\n  value: ${{1 + 1}}\n- object: A\n  count: ${{tv}}\n  fields:\n    f: ${{child_index}}\n  friends:\n    - var: fv\n      value: ${{tv * 2}}\n    - object: B\n      fields:\n        bf: ${{fv}}\n",
 })
 
+GENERATED_BASES.update({
+    # the locale: set directly, and through an option (in the version-3 dialect the option's value keeps its type)
+    "gen/locale-var": "- var: snowfakery_locale\n  value: fr_FR\n- object: A\n  fields:\n    n:\n      fake: first_name\n",
+    "gen/locale-option": "- snowfakery_version: 3\n- option: loc\n  default: en_US\n- var: snowfakery_locale\n  value: ${{loc}}\n- object: A\n  fields:\n    n:\n      fake: first_name\n  friends:\n    - var: snowfakery_locale\n      value: ja_JP\n    - object: B\n      fields:\n        m:\n          fake: first_name\n",
+    "gen/locale-option-v2": "- option: loc\n  default: en_US\n- var: snowfakery_locale\n  value: ${{loc}}\n- object: A\n  fields:\n    n:\n      fake: first_name\n",
+})
+
 GENERATED_FILES = {
     "gen/include": (
         "- include_file: inc.yml\n- object: A\n  include: im\n  fields:\n    x: ${{iv}}\n",
@@ -321,7 +328,7 @@ def base_cases():
 DATE = datetime.date(2020, 1, 1)
 POOL = [None, True, 5, 1.5, "x", [], [1, 2], {}, {"a": "b"}, DATE]
 EXTRA_POOL = [False, 0, "", "a.b.c", [{"a": "b"}], [5], [None], {5: "x"}, {"object": "Z"}, {"a.b.c": 1}, "/abs", ".", -1, [[]], {"": 1}, "main.recipe.yml", "a.b", 2.0, {"to": "A"}, {"random_reference": "A"},
-              1, 3, 4, {"object": "Z", "just_once": True}, {"object": "Z", "count": 2, "for_each": {"var": "v", "value": "x"}}, "${{ None }}", "m, m"]
+              1, 3, 4, {"object": "Z", "just_once": True}, {"object": "Z", "count": 2, "for_each": {"var": "v", "value": "x"}}, "${{ None }}", "m, m", "en-US", "en_US", [None], {"a": {"b": "c"}}]
 KEY_POOL = [
     "zzz", "", 5, True, None, DATE, 1.5, "a.b.c",
     "object", "fields", "friends", "include", "nickname", "just_once", "for_each", "count", "update_key",
